@@ -68,3 +68,24 @@ Theorem C11_two_workers_may_reorder_witness : exists s tr,
   ~ ExecOrder.subseq (ExecOrder.bodies tr) (subm s).
 Proof. exact ExecOrder.two_workers_may_reorder. Qed.
 Print Assumptions C11_two_workers_may_reorder_witness.
+
+(* ---- with the dependency resolver in front of ONE block-allocation worker (Model/DepExec.v, dinner =
+   IBlock 1; Proofs/DepOrder.v, 518 lines): for every program (cancellations, failing calls, every
+   shutdown form) and every schedule, (1) the function bodies executed form, in execution order, a
+   subsequence of the calls the resolver forwarded, in forwarding order - the single worker never lets
+   one call overtake another and runs none twice - and (2) the calls forwarded directly (all inputs
+   had finished when the resolver took them from its queue) are forwarded in submission order.
+   Hence a call whose inputs had finished when it was submitted runs before every call submitted after
+   it - the rule of the C11 oracle. ---- *)
+From EL Require Model.DepExec Model.DepOrderSpec Proofs.DepSafe Proofs.DepOrder.
+Theorem C11_resolver_single_worker_order :
+  forall c n prog d h,
+    DepExec.dinner c = DepExec.IBlock 1 -> wf_prog n prog -> DepSafe.wf_deps c n ->
+    DepOrder.dreach_h c (DepExec.dinit n prog) d h ->
+    DepOrderSpec.order_ok d h = true.
+Proof. exact DepOrder.resolver_single_worker_order. Qed.
+Print Assumptions C11_resolver_single_worker_order.
+
+Theorem C11_resolver_order_witness : ltac:(let t := type of DepOrder.order_example in exact t).
+Proof. exact DepOrder.order_example. Qed.
+Print Assumptions C11_resolver_order_witness.
